@@ -119,6 +119,7 @@ def run(ctx):
                               "abstractions/%s%s lacks 'include if exists <%s>'" % (sub, f, want), {"file": p})
             if not RE_ABI.search(text):
                 ctx.violation("C19/abstraction-abi/%s%s" % (sub, f), "abstractions/%s%s lacks abi <abi/4.0>," % (sub, f), {"file": p})
+    ctx.require(len(files) >= 1000 and nabs >= 100, "%d profile files, %d abstractions" % (len(files), nabs))
     ctx.extra["profile_files"] = len(files)
     ctx.extra["abstractions"] = nabs
     # dynamic confirmation: the consumers of the contract find what it promises
@@ -146,4 +147,5 @@ def run(ctx):
                                   b.cfg.id, base, top[0].header.attachments if top else None), {"cfg": b.cfg.id, "file": base})
             else:
                 confirmed += 1
+    ctx.require(confirmed >= 1000 * len([b for b in builds if b.rc == 0]) * 0.9, "only %d attachments observed at the builder tap" % confirmed)
     ctx.extra["attachments_confirmed_rewritten"] = confirmed
